@@ -201,6 +201,42 @@ fn judge_functions(ctx: &Ctx, text: &str, st: &mut Stats) {
             if o != want { ctx.violation("sanitize_function_differs_from_contract", format!("{expr} on {text:?}"), case("sanitize"), format!("got {o:?}, contract {want:?}")); }
         }
     }
+    // compositions: the value of one function as the argument of another (and concatenation of two results) equals the
+    // composition of the contracts; prefix() on non-ASCII text is left out (its unit is not stated)
+    {
+        let san = |x: &str| san::san(x, ".", false, false);
+        let sanl = |x: &str| san::san(x, "-", true, false);
+        let pre = |x: &str, n: usize| -> String { x.chars().take(n).collect() };
+        let pif = |x: &str, p: &str| if x.is_empty() { String::new() } else { format!("{p}{x}") };
+        let hx = |x: &str, n: usize| -> String { format!("{:x}", flow::hash_str(x)).chars().take(n).collect() };
+        let hi = |x: &str, n: usize| -> String { flow::hash_str(x).to_string().chars().take(n).collect() };
+        let mut comps: Vec<(&str, String)> = vec![
+            ("prefix_if(value=sanitize(value=bumped_branch, separator=\"-\", lowercase=true), prefix=\"+\")", pif(&sanl(text), "+")),
+            ("hash(value=sanitize(value=bumped_branch), length=8)", hx(&san(text), 8)),
+            ("sanitize(value=prefix_if(value=bumped_branch, prefix=\"v\"))", san(&pif(text, "v"))),
+            ("sanitize(value=hash_int(value=bumped_branch, length=9), preset=\"uint\")", san::uint(&hi(text, 9))),
+            ("sanitize(value=sanitize(value=bumped_branch, separator=\"-\"), separator=\"_\", lowercase=true)", san::san(&san::san(text, "-", false, false), "_", true, false)),
+            ("hash_int(value=hash(value=bumped_branch, length=16), length=5)", hi(&hx(text, 16), 5)),
+            ("sanitize(value=bumped_branch) ~ \"/\" ~ hash(value=bumped_branch, length=4)", format!("{}/{}", san(text), hx(text, 4))),
+        ];
+        if text.is_ascii() {
+            comps.extend([
+                ("sanitize(value=prefix(value=bumped_branch, length=5))", san(&pre(text, 5))),
+                ("prefix(value=sanitize(value=bumped_branch), length=4)", pre(&san(text), 4)),
+                ("hash_int(value=prefix(value=bumped_branch, length=3), length=6)", hi(&pre(text, 3), 6)),
+                ("prefix(value=hash(value=bumped_branch, length=12), length=5)", pre(&hx(text, 12), 5)),
+                ("prefix_if(value=prefix(value=bumped_branch, length=0), prefix=\"+\")", String::new()),
+                ("prefix(value=bumped_branch, length=2) ~ sanitize(value=bumped_branch)", format!("{}{}", pre(text, 2), san(text))),
+            ]);
+        }
+        for (expr, want) in comps {
+            if let Some(o) = call(&format!("[{{{{ {expr} }}}}]"), "composition", st) {
+                st.inc("composition_calls");
+                // a rendered template is trimmed by design: compare trimmed
+                if o.trim() != want.trim() { ctx.violation("function_composition_differs", format!("{expr} on {text:?}"), case("composition"), format!("got {o:?}, composed contracts give {want:?}")); }
+            }
+        }
+    }
     // max_length: result is within the limit and a truncation of the untruncated contract value
     for m in [0usize, 1, 3, 6] {
         if let Some(o) = call(&format!("[{{{{ sanitize(value=bumped_branch, separator=\"-\", lowercase=true, max_length={m}) }}}}]"), "sanitize", st) {
@@ -302,7 +338,7 @@ fn main() {
     cov.evaluations = cov.transitions;
     cov.traces_validated = cov.transitions;
     cov.distinct_nontrivial = all.get("objects");
-    cov.rule = format!("objects = schema programs (core<={lc}, extra<={le}, build<={lb} over the C06 component alphabet) x {} assignments: {{{{semver}}}}/{{{{pep440}}}} vs the formatters, part recomposition (also on one object whose branch name takes every length 0..=400, thorough 2000), docker form; scalar variables on every assignment + keyword texts; functions hash/hash_int/prefix x lengths 0..21 (0..130 for six texts) x {} texts (non-ASCII, multi-byte boundaries, keywords, numbers, bools) x allow_leading_zero, prefix_if, sanitize (presets, all separator/lowercase/keep_zeros combinations, max_length) vs R-SAN and R-SIP; format_timestamp x 7 formats x {} instants vs R-CAL with the harness under TZ=PST8. non-trivial = objects", asg.len(), pool.len(), instants.len());
+    cov.rule = format!("objects = schema programs (core<={lc}, extra<={le}, build<={lb} over the C06 component alphabet) x {} assignments: {{{{semver}}}}/{{{{pep440}}}} vs the formatters, part recomposition (also on one object whose branch name takes every length 0..=400, thorough 2000), docker form; scalar variables on every assignment + keyword texts; functions hash/hash_int/prefix x lengths 0..21 (0..130 for six texts) x {} texts (non-ASCII, multi-byte boundaries, keywords, numbers, bools) x allow_leading_zero, prefix_if, 13 compositions of two functions, sanitize (presets, all separator/lowercase/keep_zeros combinations, max_length) vs R-SAN and R-SIP; format_timestamp x 7 formats x {} instants vs R-CAL with the harness under TZ=PST8. non-trivial = objects", asg.len(), pool.len(), instants.len());
     cov.exhaustive = true;
     cov.samples = vec![json!({"template":"{{ semver }} / parts","schema":"Major,str(\"1.2\") | PreRelease,Post | Distance","vars":"post_dev_no_label"}), json!({"function":"prefix","text":"a€b","length":2}), json!({"function":"format_timestamp","t":951782400u64,"format":"%j"})];
     cov.set("clause_counts", all.to_json());
